@@ -53,23 +53,6 @@ def C20_statement : Prop :=
     orderOk s.tr = true ∧ togetherOk s.tr = true ∧ waitOk s.tr = true ∧ runWaitOk s.tr = true ∧
       noAddOk s.tr = true ∧ refusedOk s.tr = true
 
-theorem rinv_reach {ts ts' : List Th} {s : St} (hinit : ∀ t, t ∈ ts → t.isInit = true)
-    (hr : Reach (sys true) (init, ts) (s, ts')) : RInv (s, ts') := by
-  refine inv_induction (S := sys true) RInv (c0 := (init, ts)) (c := (s, ts')) ?_ (fun a b ha hs => rinv_step ha hs) hr
-  refine ⟨inv_init, ?_, ?_⟩
-  · intro t ht
-    have := hinit t ht
-    cases t with
-    | runner c pc => cases pc <;> first | trivial | simp [Th.isInit] at this
-    | _ => trivial
-  · intro _
-    refine ⟨rfl, ?_⟩
-    intro t ht
-    have := hinit t ht
-    cases t with
-    | runner c pc => cases pc <;> first | trivial | simp [Th.isInit] at this
-    | _ => trivial
-
 /-- **Run, the part that holds.**  `Run` copies the per-order WaitGroups once, right after its `Start`.
 Missing for the full statement: workers accepted *after* that copy are not waited for.  Under the forced
 hypothesis that no worker is accepted after a `Run` copied the WaitGroups (`noLateAdd`), every `Run`
